@@ -115,6 +115,19 @@ CLAIMS = {
          "WAMP mixins is C01/C02/C05/C07; int() is an oracle. Known finding (thorough tier): 2^24-octet boundary with an asyncio "
          "receiver.",
          "Gallina models + induction/invariants + vm_compute sweep; translator; sharded correspondence runs"),
+ "C12": ("5 C12",
+         "Coq theorems (unbounded in messages, sizes, fragmentations, chunkings): negotiation soundness for deflate (per direction "
+         "decompressor window >= compressor window, context-takeover agreement, zlib-permissible values) proved generally and as an "
+         "exhaustive in-Coq vm_compute sweep of the generated 589,824-point offer x accept x response-accept lattice, likewise "
+         "bzip2/brotli/snappy; answer within offer; exact characterisation of what the client accepts/rejects (unknown extension, "
+         "repeated PMCE, unknown/duplicated/out-of-range parameters, policy None); handle typestate for all codecs and takeover "
+         "modes; losslessness under an explicit codec stream law; doNotCompress; RSV1 placement and rejection. Permissible sets, "
+         "defaults, names regenerated from the source. Differential run: real client+server handshakes over the lattice and real "
+         "zlib/bz2/brotli traffic under fragmentation and re-segmentation, both frameworks.",
+         "Partial: the compression libraries enter as a Section oracle (codec stream law), exercised for real only in the runs; "
+         "Python int() is an oracle; snappy proved but not run (not installed); the frame-level streaming API is oracle-only "
+         "(known finding streaming.beginMessageFrame/compressed/raw-octets-flagged-RSV1).",
+         "Coq proof (induction, invariants, vm_compute lattice sweep) + translator + correspondence run"),
 }
 NOT_YET = {}
 
